@@ -96,20 +96,23 @@ Proof. exact safemap_race_free_proof. Qed.
 
 (* The generated skeleton has exactly the section structure of the concurrent model:
    (1) every operation of the model has its method in the skeleton, and that method's sections are, in order,
-       sections holding exactly the lock "mux" in the mode, and touching only "m" with the may-write flag, that
-       [sections_of] declares for the model's steps (GetOrAdd: a read section, then a write section);
+       sections holding exactly the lock "mux" in the mode, and touching only "m" with the may-read and
+       may-write flags, that [sections_of] declares for the model's steps (GetOrAdd: a read section that
+       reads, then a write section that reads — the re-check — and writes; Set/Delete/Clear: write only);
    (2) the skeleton has no other methods;
    (3) the model's steps respect the declaration: the i-th step of an invocation is its i-th declared
-       section, a section declared non-writing (= read-locked) leaves the shared state unchanged, and a step
-       that does not return moves on to the next declared section of the same operation. *)
+       section, a section declared non-writing (= read-locked) leaves the shared state unchanged, the outcome
+       of a section declared non-reading does not depend on the shared state, and a step that does not
+       return moves on to the next declared section of the same operation. *)
 Theorem C07_skeleton_matches_model :
   (forall K V D (o : SafeMap.op K V D), exists secs,
       In (method_name o, secs) safemap_skeleton /\ map sec_shape secs = map Some (sections_of o))
   /\ (forall name, In name (map fst safemap_skeleton) ->
         exists o : SafeMap.op unit unit unit, name = method_name o)
   /\ (forall K V D keqb zero (m : @SafeMap.smap K V) (l : SafeMap.local K V D),
-        exists md w, nth_error (sections_of (op_of_local l)) (section_index l) = Some (md, w)
+        exists md rd w, nth_error (sections_of (op_of_local l)) (section_index l) = Some (md, rd, w)
           /\ (w = false -> fst (@SafeMap.cstep K V D keqb zero m l) = m)
+          /\ (rd = false -> forall m2, snd (@SafeMap.cstep K V D keqb zero m2 l) = snd (@SafeMap.cstep K V D keqb zero m l))
           /\ (md = Rd <-> w = false)
           /\ (forall l', snd (@SafeMap.cstep K V D keqb zero m l) = inl l' ->
                 op_of_local l' = op_of_local l /\ section_index l' = S (section_index l))).
